@@ -22,6 +22,8 @@ use crate::store::*;
 thread_local! {
     static LAST_PANIC: RefCell<Option<PanicInfo>> = const { RefCell::new(None) };
     static TIMEOUTS: RefCell<(Vec<u8>, usize, Vec<Option<usize>>)> = const { RefCell::new((Vec::new(), 0, Vec::new())) };
+    static IN_GUARD: std::cell::Cell<bool> = const { std::cell::Cell::new(false) };
+    static FAIR_TIMEOUTS: std::cell::Cell<bool> = const { std::cell::Cell::new(false) };
 }
 
 #[derive(Clone, Debug, serde::Serialize, serde::Deserialize)]
@@ -55,11 +57,16 @@ pub fn install_panic_hook() {
                 }
                 true
             });
-            if !in_case || std::env::var_os("VERIF_PANIC_VERBOSE").is_some() {
+            let guarded = IN_GUARD.with(|g| g.get());
+            if !in_case || !guarded || std::env::var_os("VERIF_PANIC_VERBOSE").is_some() {
                 prev(info);
             }
         }));
     });
+}
+
+pub fn set_guard(on: bool) {
+    IN_GUARD.with(|g| g.set(on));
 }
 
 pub fn take_panic_pub() -> Option<PanicInfo> {
@@ -71,7 +78,12 @@ fn take_panic() -> Option<PanicInfo> {
 }
 
 /// Installs the election-timeout provider (hook H4) for this thread.
+pub fn set_fair_timeouts(on: bool) {
+    FAIR_TIMEOUTS.with(|f| f.set(on));
+}
+
 fn install_timeouts(pool: &[u8]) {
+    set_fair_timeouts(false);
     TIMEOUTS.with(|t| {
         let mut g = t.borrow_mut();
         g.0 = pool.to_vec();
@@ -90,6 +102,11 @@ fn install_timeouts(pool: &[u8]) {
             }
             let i = g.1;
             g.1 += 1;
+            if FAIR_TIMEOUTS.with(|f| f.get()) {
+                // fair suffix: a deterministic pseudo-random draw per call (breaks symmetric timeouts)
+                let h = crate::store::mix_u64(crate::store::mix_u64(0x9e3779b97f4a7c15, i as u64), id);
+                return Some(min + (h as usize >> 7) % (max - min));
+            }
             let b = g.0[i % g.0.len()] as usize;
             // mix the counter in so that a short pool does not cycle identically
             let v = min + (b.wrapping_add(i / g.0.len() * 7)) % (max - min);
@@ -227,12 +244,18 @@ pub struct CaseStats {
     pub async_batches: u32,
     pub fsync_lag_max: u32,
     pub flags: u64,
+    pub liveness_rounds: u32,
+    pub liveness_slow: u32,
+    pub handoffs_completed: u32,
+    pub mode1: u32,
     pub noop_by_kind: [u32; NKINDS],
 }
 
 pub const STOP_REMOVED: u32 = 1;
 pub const NO_F3_EXCLUSION: u32 = 2;
 pub const HOLD_F1: u32 = 4;
+pub const NO_F8_EXCLUSION: u32 = 8;
+pub const EXCLUDE_F8: u32 = 16;
 
 pub struct World {
     pub sc: Scenario,
@@ -251,6 +274,9 @@ pub struct World {
     pub logger: slog::Logger,
     pub options: u32,
     pub trace: Option<Vec<String>>,
+    pub in_suffix: bool,
+    /// structured scenarios address nodes exactly (no remapping onto eligible nodes)
+    pub strict_nodes: bool,
 }
 
 fn cs_from(sc: &Scenario) -> ConfState {
@@ -296,13 +322,15 @@ impl World {
                 ever_started: false,
             });
         }
+        let mut stats0 = CaseStats::default();
+        stats0.mode1 = sc.mode as u32;
         let mut w = World {
             sc: sc.clone(),
             nodes,
             net: VecDeque::new(),
             part: None,
             mon,
-            stats: CaseStats::default(),
+            stats: stats0,
             panic: None,
             dead: false,
             op_index: 0,
@@ -313,6 +341,8 @@ impl World {
             logger,
             options,
             trace: None,
+            in_suffix: false,
+            strict_nodes: false,
         };
         w.mon.init(&w.sc);
         for i in 0..NN {
@@ -351,7 +381,7 @@ impl World {
     }
 
     /// (Re)start node from its disk image.
-    fn start_node(&mut self, ni: usize) {
+    pub(crate) fn start_node(&mut self, ni: usize) {
         if self.dead || self.nodes[ni].up() || self.nodes[ni].destroyed {
             return;
         }
@@ -370,10 +400,15 @@ impl World {
         }
         let store = self.nodes[ni].cache.clone();
         let logger = self.logger.clone();
+        IN_GUARD.with(|g| g.set(true));
         let r = catch_unwind(AssertUnwindSafe(|| RawNode::new(&cfg, store, &logger)));
+        IN_GUARD.with(|g| g.set(false));
         self.stats.lib_calls += 1;
         match r {
             Ok(Ok(rn)) => {
+                if let Some(t) = self.trace.as_mut() {
+                    t.push(format!("  [{}] n{} START term={} commit={} conf={:?}", self.op_index, ni + 1, rn.raft.term, rn.raft.raft_log.committed, rn.raft.prs().conf().to_conf_state()));
+                }
                 self.nodes[ni].rn = Some(rn);
                 let first = !self.nodes[ni].ever_started;
                 self.nodes[ni].ever_started = true;
@@ -415,7 +450,10 @@ impl World {
         self.stats.lib_calls += 1;
         let res = {
             let rn = self.nodes[ni].rn.as_mut().unwrap();
-            catch_unwind(AssertUnwindSafe(|| f(rn)))
+            IN_GUARD.with(|g| g.set(true));
+            let r = catch_unwind(AssertUnwindSafe(|| f(rn)));
+            IN_GUARD.with(|g| g.set(false));
+            r
         };
         match res {
             Ok(r) => {
@@ -435,6 +473,7 @@ impl World {
                         CallKind::Step(m) => format!(" [{}]", msg_brief(m)),
                         CallKind::OnPersist(n) => format!(" ({})", n),
                         CallKind::AdvanceApply(n) => format!(" ({})", n),
+                        CallKind::ApplyConf => format!(" conf={:?}", post.conf),
                         _ => String::new(),
                     };
                     t.push(format!(
@@ -499,7 +538,7 @@ impl World {
         }
     }
 
-    fn take_metas(&mut self, ni: usize, n_msgs: usize) -> Vec<MsgMeta> {
+    pub(crate) fn take_metas(&mut self, ni: usize, n_msgs: usize) -> Vec<MsgMeta> {
         let inc = self.nodes[ni].incarnation;
         let mut metas = std::mem::take(&mut self.nodes[ni].pending_meta);
         metas.truncate(n_msgs);
@@ -512,7 +551,7 @@ impl World {
 
     // ------------------------------------------------------------------ network
 
-    fn blocked(&self, from: u64, to: u64) -> bool {
+    pub(crate) fn blocked(&self, from: u64, to: u64) -> bool {
         match self.part {
             None => false,
             Some(mask) => {
@@ -524,7 +563,7 @@ impl World {
     }
 
     /// A message leaves node `ni` (AC2): monitors judge it against the durable state.
-    fn release(&mut self, ni: usize, msgs: Vec<Message>, metas: Vec<MsgMeta>) {
+    pub(crate) fn release(&mut self, ni: usize, msgs: Vec<Message>, metas: Vec<MsgMeta>) {
         for (m, meta) in msgs.into_iter().zip(metas.into_iter()) {
             self.mon.on_release(ni, &m, &meta, &self.nodes, self.op_index);
             if m.get_msg_type() == MessageType::MsgSnapshot {
@@ -539,7 +578,7 @@ impl World {
         }
     }
 
-    fn deliver_msg(&mut self, m: Message, meta: MsgMeta) {
+    pub(crate) fn deliver_msg(&mut self, m: Message, meta: MsgMeta) {
         let to = m.to;
         if to == 0 || to > NN as u64 {
             self.stats.dropped += 1;
@@ -565,7 +604,7 @@ impl World {
 
     /// Known finding F3: a sole voter with an unpersisted tail must not campaign
     /// (become_leader asserts last_index == persisted). Excluded by construction.
-    fn f3_trigger(&self, ni: usize) -> bool {
+    pub(crate) fn f3_trigger(&self, ni: usize) -> bool {
         if self.options & NO_F3_EXCLUSION != 0 {
             return false;
         }
@@ -642,7 +681,7 @@ impl World {
     }
 
     /// Applies up to `count` handed-out entries on node ni. Returns number applied.
-    fn apply_some(&mut self, ni: usize, count: usize, crash_after: Option<usize>) -> usize {
+    pub(crate) fn apply_some(&mut self, ni: usize, count: usize, crash_after: Option<usize>) -> usize {
         let mut done = 0;
         while done < count {
             if self.dead || !self.nodes[ni].up() {
@@ -699,7 +738,9 @@ impl World {
                 let id = self.nodes[ni].id;
                 if !cv.is_member(id) && self.options & STOP_REMOVED != 0 {
                     self.crash(ni);
-                    self.nodes[ni].destroyed = true;
+                    // in the fair suffix the stopped peer is started again from its disk (as an inert
+                    // follower; it takes part again if a later change re-adds it)
+                    self.nodes[ni].destroyed = !self.in_suffix;
                     return done;
                 }
             }
@@ -711,15 +752,31 @@ impl World {
         done
     }
 
-    fn advance_apply(&mut self, ni: usize) {
+    pub(crate) fn advance_apply(&mut self, ni: usize) {
         if self.dead || !self.nodes[ni].up() {
             return;
         }
         let applied = self.nodes[ni].cache.0.borrow().app.applied;
         let cur = self.nodes[ni].rn.as_ref().unwrap().raft.raft_log.applied;
-        if applied > cur {
+        if self.nodes[ni].to_apply.is_empty() {
+            // everything handed out is applied (or covered by an installed snapshot):
+            // the index-free variant must bring raft's applied index to the application's
+            if applied > cur {
+                self.call(ni, CallKind::AdvanceApply(0), |rn| rn.advance_apply());
+            }
+            self.check_applied_in_sync(ni, "advance_apply()");
+        } else if applied > cur {
             self.call(ni, CallKind::AdvanceApply(applied), |rn| rn.advance_apply_to(applied));
         }
+    }
+
+    fn check_applied_in_sync(&mut self, ni: usize, how: &str) {
+        if self.dead || !self.nodes[ni].up() {
+            return;
+        }
+        let applied = self.nodes[ni].cache.0.borrow().app.applied;
+        let cur = self.nodes[ni].rn.as_ref().unwrap().raft.raft_log.applied;
+        self.mon.on_applied_sync(ni, cur, applied, how, self.op_index);
     }
 
     // ------------------------------------------------------------------ ready rounds
@@ -729,6 +786,7 @@ impl World {
         let has = rn.has_ready();
         if self.mon.wants_has_ready_check() {
             let mut cl = rn.clone();
+            IN_GUARD.with(|g| g.set(true));
             let r = catch_unwind(AssertUnwindSafe(move || {
                 let rd = cl.ready();
                 rd.ss().is_some()
@@ -740,6 +798,7 @@ impl World {
                     || !rd.messages().is_empty()
                     || !rd.persisted_messages().is_empty()
             }));
+            IN_GUARD.with(|g| g.set(false));
             match r {
                 Ok(nonempty) => self.mon.on_has_ready(ni, has, nonempty, self.op_index),
                 Err(_) => {
@@ -869,6 +928,9 @@ impl World {
             Some(l) => l,
             None => return true,
         };
+        if use_advance {
+            self.check_applied_in_sync(ni, "advance()");
+        }
         let n_l = light.messages().len();
         let lm = self.take_metas(ni, n_l);
         self.mon.on_light_ready(ni, &light, &self.nodes, self.op_index);
@@ -1002,7 +1064,7 @@ impl World {
 
     /// Makes the first batches durable (how many: selected by `sel`), releases
     /// their persisted messages and notifies raft - one atomic step (AC4).
-    fn fsync(&mut self, ni: usize, sel: u8) -> bool {
+    pub(crate) fn fsync(&mut self, ni: usize, sel: u8) -> bool {
         if self.dead || !self.nodes[ni].up() || self.nodes[ni].batches.is_empty() {
             return false;
         }
@@ -1020,7 +1082,7 @@ impl World {
         true
     }
 
-    fn ready_step(&mut self, ni: usize, crash_at: u8, lazy_hs: bool, apply_inline: bool, force_sync: bool) -> bool {
+    pub(crate) fn ready_step(&mut self, ni: usize, crash_at: u8, lazy_hs: bool, apply_inline: bool, force_sync: bool) -> bool {
         if self.nodes[ni].cfg.async_io && !force_sync {
             self.ready_async(ni, crash_at, apply_inline)
         } else {
@@ -1043,6 +1105,9 @@ impl World {
             }
         }
         self.stats.crashes += 1;
+        if let Some(t) = self.trace.as_mut() {
+            t.push(format!("  [{}] n{} CRASH", self.op_index, ni + 1));
+        }
         let lost = {
             let n = &self.nodes[ni];
             !n.batches.is_empty()
@@ -1064,7 +1129,7 @@ impl World {
 
     // ------------------------------------------------------------------ ops
 
-    fn propose_payload(&mut self, len: usize) -> Vec<u8> {
+    pub(crate) fn propose_payload(&mut self, len: usize) -> Vec<u8> {
         self.proposal_ctr += 1;
         if len == 0 {
             return vec![];
@@ -1104,7 +1169,7 @@ impl World {
         (None, cc)
     }
 
-    fn tick_until_timeout(&mut self, ni: usize) -> bool {
+    pub(crate) fn tick_until_timeout(&mut self, ni: usize) -> bool {
         if !self.nodes[ni].up() {
             return false;
         }
@@ -1131,7 +1196,7 @@ impl World {
     }
 
     /// Full default processing of node ni until it has nothing ready (bounded).
-    fn process_node(&mut self, ni: usize) -> bool {
+    pub(crate) fn process_node(&mut self, ni: usize) -> bool {
         let mut any = false;
         for _ in 0..6 {
             if self.dead || !self.nodes[ni].up() {
@@ -1189,6 +1254,9 @@ impl World {
     /// Maps a generated node byte onto the nodes satisfying `pred` (construction
     /// instead of rejection); falls back to the plain index when none does.
     fn pick_node(&self, n: u8, pred: impl Fn(&Node) -> bool) -> usize {
+        if self.strict_nodes {
+            return self.node_index(n);
+        }
         let el: Vec<usize> = (0..NN).filter(|i| pred(&self.nodes[*i])).collect();
         if el.is_empty() {
             return self.node_index(n);
@@ -1200,7 +1268,7 @@ impl World {
         el[((n as usize).max(1) - 1) * el.len() / NN.max(1) % el.len()]
     }
 
-    fn node_index(&self, n: u8) -> usize {
+    pub(crate) fn node_index(&self, n: u8) -> usize {
         ((n as usize).max(1) - 1).min(NN - 1)
     }
 
@@ -1221,7 +1289,7 @@ impl World {
         self.op_index += 1;
     }
 
-    fn exec_inner(&mut self, op: &Op) -> bool {
+    pub(crate) fn exec_inner(&mut self, op: &Op) -> bool {
         match op {
             Op::Tick { n, k } => {
                 let ni = self.node_index(*n);
@@ -1388,6 +1456,15 @@ impl World {
                 let ni = self.node_index(*n);
                 if !self.nodes[ni].up() {
                     return false;
+                }
+                // Known finding F8 (C10): a snapshot requested at an uncommitted last index can never be
+                // served by a conforming Storage when the requester's ack is needed to commit that index.
+                if self.options & EXCLUDE_F8 != 0 && self.options & NO_F8_EXCLUSION == 0 {
+                    let rl = &self.nodes[ni].rn.as_ref().unwrap().raft.raft_log;
+                    if rl.last_index() > rl.committed {
+                        self.stats.excluded_other += 1;
+                        return false;
+                    }
                 }
                 self.call(ni, CallKind::RequestSnapshot, |rn| rn.request_snapshot());
                 true
@@ -1618,6 +1695,250 @@ impl World {
             w.exec(op);
         }
         w.finish()
+    }
+
+    /// C10: fault prefix followed by a deterministic fair suffix; bounded convergence.
+    pub fn run_liveness(case: &Case, mon: Mon, options: u32, trace: bool) -> RunOutcome {
+        let mut w = World::new(&case.scenario, mon, options);
+        if trace {
+            w.trace = Some(vec![]);
+        }
+        if case.scenario.warm {
+            w.warm_up();
+        }
+        for op in &case.ops {
+            if w.dead {
+                break;
+            }
+            w.exec(op);
+        }
+        if !w.dead {
+            w.fair_suffix();
+        }
+        w.finish()
+    }
+
+    fn suffix_round(&mut self, probes: &mut Vec<Vec<u8>>, round: usize) {
+        for ni in 0..NN {
+            if !self.nodes[ni].up() && !self.dead {
+                self.start_node(ni);
+            }
+        }
+        // outstanding snapshot reports (AC9)
+        let reps = std::mem::take(&mut self.snap_reports);
+        for (from, to) in reps {
+            let ni = (from - 1) as usize;
+            if self.nodes[ni].up() {
+                self.call(ni, CallKind::ReportSnapshot(to, true), move |rn| rn.report_snapshot(to, SnapshotStatus::Finish));
+            }
+        }
+        for ni in 0..NN {
+            if self.dead || !self.nodes[ni].up() {
+                continue;
+            }
+            if self.f3_trigger(ni) {
+                self.stats.excluded_f3 += 1;
+                continue;
+            }
+            self.call(ni, CallKind::Tick, |rn| rn.tick());
+        }
+        // a small probe proposal at a leader: whenever none of the earlier ones is in that leader's log
+        // (dropped with a deposed leader), and anyway once per election timeout so that the log keeps
+        // growing (a follower waiting for a snapshot at a higher index is then eventually served)
+        // (the leader of the highest term: a removed or partitioned-away stale leader may linger)
+        let leader = (0..NN)
+            .filter(|i| self.nodes[*i].rn.as_ref().map_or(false, |rn| rn.raft.state == StateRole::Leader && rn.raft.prs().get(rn.raft.id).is_some()))
+            .max_by_key(|i| self.nodes[*i].rn.as_ref().unwrap().raft.term);
+        if let Some(li) = leader {
+            let has_probe = {
+                let rn = self.nodes[li].rn.as_ref().unwrap();
+                let c = self.nodes[li].cache.0.borrow();
+                probes.iter().any(|p| c.entries.iter().any(|e| e.data[..] == p[..]) || rn.raft.raft_log.unstable.entries.iter().any(|e| e.data[..] == p[..]))
+            };
+            if !has_probe || round % (2 * self.sc.election_tick) == 0 {
+                let data = self.propose_payload(8);
+                let d2 = data.clone();
+                let r = self.call(li, CallKind::Propose { len: 8 }, move |rn| rn.propose(vec![], d2));
+                if let Some(Ok(())) = r {
+                    probes.push(data);
+                }
+            }
+        }
+        for _ in 0..4 {
+            if !self.settle(1) {
+                break;
+            }
+        }
+    }
+
+    fn converged(&self, probes: &[Vec<u8>]) -> Result<(), String> {
+        let ups: Vec<usize> = (0..NN).filter(|i| self.nodes[*i].up()).collect();
+        // the leader of the highest term that is a member of its own configuration; nodes outside
+        // that configuration (removed peers that still run, possibly at inflated terms) do not count
+        let leaders: Vec<usize> = ups
+            .iter()
+            .cloned()
+            .filter(|i| {
+                let r = &self.nodes[*i].rn.as_ref().unwrap().raft;
+                // (a leader demoted to learner by its own change keeps leading and replicating - finding F4's
+                // milder form; it still counts as the cluster's leader as long as it is a member)
+                r.state == StateRole::Leader && r.prs().get(r.id).is_some()
+            })
+            .collect();
+        let li = match leaders.iter().cloned().max_by_key(|i| self.nodes[*i].rn.as_ref().unwrap().raft.term) {
+            Some(l) => l,
+            None => return Err("no leader".into()),
+        };
+        {
+            let lr = self.nodes[li].rn.as_ref().unwrap();
+            let lt = lr.raft.term;
+            let conf = ConfView::from_cs(&lr.raft.prs().conf().to_conf_state());
+            for i in &ups {
+                let r = &self.nodes[*i].rn.as_ref().unwrap().raft;
+                if *i != li && conf.is_member(r.id) && (r.term != lt || r.state == StateRole::Leader) {
+                    return Err(format!("member {} is {:?} at term {} while leader {} is at term {}", r.id, r.state, r.term, li + 1, lt));
+                }
+            }
+        }
+        let lr = self.nodes[li].rn.as_ref().unwrap();
+        let conf = ConfView::from_cs(&lr.raft.prs().conf().to_conf_state());
+        let llog = log_view(lr);
+        let lcommit = lr.raft.raft_log.committed;
+        if probes.is_empty() {
+            return Err("no probe proposal accepted yet".into());
+        }
+        // the probe that counts: the latest one the leader has committed
+        let mut probe: Option<&Vec<u8>> = None;
+        {
+            let c = self.nodes[li].cache.0.borrow();
+            for p in probes.iter().rev() {
+                if c.entries.iter().any(|e| e.index <= lcommit && e.data[..] == p[..]) {
+                    probe = Some(p);
+                    break;
+                }
+            }
+        }
+        let probe = match probe {
+            Some(p) => p,
+            None => return Err("no probe entry committed by the current leader yet".into()),
+        };
+        for ni in ups {
+            let id = (ni + 1) as u64;
+            if !conf.is_member(id) {
+                continue;
+            }
+            let rn = self.nodes[ni].rn.as_ref().unwrap();
+            let lg = log_view(rn);
+            if lg.last() != llog.last() || lg.term(lg.last()) != llog.term(llog.last()) {
+                return Err(format!("node {} last ({}, {:?}) != leader {} last ({}, {:?})", id, lg.last(), lg.term(lg.last()), li + 1, llog.last(), llog.term(llog.last())));
+            }
+            if rn.raft.raft_log.committed != lcommit {
+                return Err(format!("node {} commit {} != leader commit {}", id, rn.raft.raft_log.committed, lcommit));
+            }
+            let app = self.nodes[ni].cache.0.borrow().app.applied;
+            // the probe must have been applied: find it in the log at or below the applied index
+            let c = self.nodes[ni].cache.0.borrow();
+            let mut found = false;
+            for e in c.entries.iter().rev() {
+                if e.index <= app && e.data[..] == probe[..] {
+                    found = true;
+                    break;
+                }
+            }
+            // (a member whose log was compacted past the probe has applied it too)
+            if !found && !(app >= lcommit && lcommit >= c.snap_index && c.entries.iter().all(|e| e.data[..] != probe[..]) && c.snap_index > 0 && self.mon.probe_committed_below(c.snap_index, probe)) {
+                return Err(format!("node {} has not applied the probe entry (applied {}, commit {})", id, app, lcommit));
+            }
+        }
+        Ok(())
+    }
+
+    fn fair_suffix(&mut self) {
+        // ---- stabilisation: faults stop
+        self.part = None;
+        self.in_suffix = true;
+        self.mon.note_liveness_start(&self.nodes);
+        for ni in 0..NN {
+            // a peer stopped after applying its own removal keeps its disk; it is started again too
+            // (inert unless a later change re-adds it - ids are never reused with a wiped disk, AC10)
+            self.nodes[ni].destroyed = false;
+            if !self.nodes[ni].up() {
+                self.stats.restarts += 1;
+                self.start_node(ni);
+            }
+        }
+        if self.dead {
+            return;
+        }
+        set_fair_timeouts(true);
+        // operator knobs back to their configured values
+        for ni in 0..NN {
+            if !self.nodes[ni].up() {
+                continue;
+            }
+            let cap = self.nodes[ni].cfg.max_inflight;
+            let pri = self.nodes[ni].cfg.priority;
+            self.call(ni, CallKind::Knob, move |rn| {
+                for t in 1..=NN as u64 {
+                    rn.raft.adjust_max_inflight_msgs(t, cap);
+                }
+                rn.set_priority(pri);
+            });
+            self.nodes[ni].cache.0.borrow_mut().snap_unavailable = false;
+        }
+        let et = self.sc.election_tick;
+        let bound = 12 * 2 * et;
+        let mut probes: Vec<Vec<u8>> = vec![];
+        let mut last_err = String::new();
+        let mut ok_at: Option<usize> = None;
+        for r in 0..8 * bound {
+            if self.dead {
+                return;
+            }
+            self.suffix_round(&mut probes, r + 1);
+            if self.dead {
+                return;
+            }
+            match self.converged(&probes) {
+                Ok(()) => {
+                    ok_at = Some(r + 1);
+                    break;
+                }
+                Err(e) => last_err = e,
+            }
+        }
+        set_fair_timeouts(false);
+        match ok_at {
+            Some(r) => self.mon.note_liveness_result(r, bound),
+            None => {
+                let mut summary = String::new();
+                for ni in 0..NN {
+                    if let Some(rn) = self.nodes[ni].rn.as_ref() {
+                        let r = &rn.raft;
+                        summary.push_str(&format!(
+                            " n{}:{:?}/t{}/c{}/l{}/lead{}",
+                            ni + 1, r.state, r.term, r.raft_log.committed, r.raft_log.last_index(), r.leader_id
+                        ));
+                    }
+                }
+                // precise tag for listed finding F8: a member still waits for a requested snapshot whose
+                // index the leader has not applied
+                let lead_applied = (0..NN)
+                    .filter_map(|i| self.nodes[i].rn.as_ref())
+                    .filter(|rn| rn.raft.state == StateRole::Leader)
+                    .map(|rn| rn.raft.raft_log.applied)
+                    .max()
+                    .unwrap_or(0);
+                let stuck_req = (0..NN).filter_map(|i| self.nodes[i].rn.as_ref()).any(|rn| rn.raft.pending_request_snapshot > lead_applied);
+                let mon_name = if stuck_req { "no-convergence-after-stabilisation:snapshot-request-beyond-leader-applied" } else { "no-convergence-after-stabilisation" };
+                self.mon.violation(
+                    "C10",
+                    mon_name,
+                    format!("after {} fair rounds ({} election timeouts) the cluster has not converged: {};{}", 8 * bound, 8 * 12, last_err, summary),
+                    self.op_index,
+                );
+            }
+        }
     }
 
     pub fn finish(mut self) -> RunOutcome {
